@@ -168,8 +168,14 @@ impl<K> Policy<K> {
             return;
         }
 
-        let victim =
-            self.lru.peek_least_recent(lru::Region::Probation).unwrap();
+        let Some(victim) = self.lru.peek_least_recent(lru::Region::Probation)
+        else {
+            // The probation region is empty (every candidate victim is pinned
+            // or the cache is tiny): there is nothing to compete with, so the
+            // un-pinned entry simply re-enters the main cache.
+            self.lru.move_key_to_head_of_region(unpin, lru::Region::Probation);
+            return;
+        };
 
         let (pinned_frequency, victim_frequency) = {
             let pinned_hash = build_hash.hash_one(unpin);
